@@ -145,6 +145,10 @@ def shard(sh):
     from vlib import e5_gthread as e5
     tier = sh.get("tier", "quick")
     run = Run(PROP, tier, sh["seed"], "exploration", RULE)
+    if sh["kind"] == "live":
+        from checks import c13_live
+        c13_live.shard(run, sh)
+        return run
     if sh["kind"] == "random":
         rng = rng_for(sh["seed"], "c13", sh["sub"])
         for i in range(sh["n"]):
@@ -193,7 +197,10 @@ def main(tier, seed):
         "keepalive + 4 s after the last client left to be empty",
         "connections still open when run() returns after a stop request are closed by process exit (counted, not judged)",
     ]
+    from checks import c13_live
+    live = c13_live.plan(run, tier, seed)
     common.run_sharded(run, shards, timeout=900 if q else 7200)
+    common.run_sharded(run, live, timeout=600, nproc=4)
     return run.finish()
 
 
@@ -202,6 +209,12 @@ def replay(path):
     with open(path) as f:
         rec = json.load(f)
     run = Run(PROP, "quick", 0, "exploration", RULE)
+    if "live" in rec["case"]:
+        from checks import c13_live
+        v = c13_live.replay_case(run, rec["case"])
+        for mech, s in v:
+            print("VIOLATION property=%s replay=%s\n  %s %s" % (PROP, path, mech, s))
+        return 1 if v else 0
     v, reason, k = run_case(run, e5, rec["case"])
     for e in k.log:
         print("  ", e)
